@@ -1,3 +1,7 @@
 //! Safe-Rust verification hooks for this module (accessors/wrappers only; no logic).
 #![allow(missing_docs, unused_imports, dead_code)]
 use super::*;
+
+// --- C38 (ntpd_h): the cap constant, for reporting only (the harness oracle uses 1 MiB from the property text).
+pub const MAX_JSON: u64 = MAX_JSON_MESSAGE_SIZE;
+pub use super::{read_json, write_json};
